@@ -79,7 +79,12 @@ def make_block_text(rng, b, layout):
     pc = layout.get('pre_colon', '')            # blanks between the last annotation and the ':' that separates the description
     lines = ['/**']
     ident = b['name'] + (':' if (b['anns'] or layout['colon']) else '')
-    if b['anns']:
+    if b['anns'] and layout.get('ident_below'):
+        # the identifier alone on its line (its colon is optional), every annotation on a continuation line of its own
+        lines.append('%s %s%s' % (star, b['name'], ':' if layout['colon'] else ''))
+        for a in b['anns']:
+            lines.append('%s   %s' % (star, render_ann(a)))
+    elif b['anns']:
         if layout['wrap_anns'] and len(b['anns']) > 1:
             lines.append('%s %s %s' % (star, ident, render_ann(b['anns'][0])))
             for a in b['anns'][1:]:
@@ -376,7 +381,8 @@ def main(tier, seed):
                    dict(base_layout, indent='\t'), dict(base_layout, wrap_anns=True), dict(base_layout, colon=False, wrap_anns=rng.random() < 0.5),
                    dict(base_layout, returns_as_param=True), dict(base_layout, trailing=True), dict(base_layout, trailing=True, wrap_anns=True),
                    dict(base_layout, ann_sep=rng.choice(['\t', '  ', ' \t '])), dict(base_layout, wrap_anns=True, cont_tabs=True),
-                   dict(base_layout, pre_colon=rng.choice([' ', '  ', '\t']), wrap_anns=rng.random() < 0.3)]
+                   dict(base_layout, pre_colon=rng.choice([' ', '  ', '\t']), wrap_anns=rng.random() < 0.3),
+                   dict(base_layout, ident_below=True), dict(base_layout, ident_below=True, colon=False)]
         first = None
         for lay in layouts:
             if lay.get('returns_as_param') and any(t['name'] == 'Returns' and '' in t['desc'] for t in b['tags']):
